@@ -106,30 +106,48 @@ StateFindings(T, j, post) ==
                     IN { <<TopCheck(c, post, i), c.name, i>> : i \in 1..Len(post) }
                   : n \in {n \in 1..Len(T.ind) : T.ind[n].mg = j} } }
 
-\* batch twin (C01): same candles, same readings, bit for bit
+\* twins: a second observation of the same configuration obtained by calling the library
+\* differently (batch, longer batch, untrimmed, standalone).  A twin record is
+\*   [j, mode, skip, names, clause, cs]
+\* mode "full"   : same length, every candle compared
+\*      "prefix" : the first Len(post) - skip candles compared with the same positions
+\*      "tail"   : post compared with the last Len(post) candles of the twin
+\* names = <<>>  : both reading dictionaries compared; otherwise only the listed top-level names
 KVSame(a, b) ==
   /\ {a.k[q] : q \in 1..Len(a.k)} = {b.k[q] : q \in 1..Len(b.k)}
   /\ \A q \in 1..Len(a.k) : SameV(a.v[q], KVGet(b, a.k[q]))
-TwinFindings(j, post, tw, clause) ==
-  IF Len(post) # Len(tw) THEN {<<clause \o "_len", j, "", Len(tw)>>}
-  ELSE { <<clause \o "_candle", j, "", i>> : i \in {i \in 1..Len(post) : Shell(post[i]) # Shell(tw[i])} }
-       \cup { <<clause \o "_ind", j, "", i>> : i \in {i \in 1..Len(post) : ~KVSame(post[i].ind, tw[i].ind)} }
-       \cup { <<clause \o "_sub", j, "", i>> : i \in {i \in 1..Len(post) : ~KVSame(post[i].sub, tw[i].sub)} }
+NameSame(a, b, nm) ==
+  /\ KVHas(a, nm) = KVHas(b, nm)
+  /\ (KVHas(a, nm) => SameV(KVGet(a, nm), KVGet(b, nm)))
+TwinFindings(tw, post) ==
+  LET a   == post[tw.j]
+      b   == CJSeq(tw.cs)
+      n   == IF tw.mode = "prefix" THEN MaxI(0, Len(a) - tw.skip) ELSE Len(a)
+      off == IF tw.mode = "tail" THEN Len(b) - Len(a) ELSE 0
+      cl  == tw.clause
+  IN IF (tw.mode = "full" /\ Len(a) # Len(b)) \/ (tw.mode # "full" /\ Len(b) < n + off) \/ off < 0
+     THEN {<<cl \o "_len", tw.j, "", Len(b)>>}
+     ELSE { <<cl \o "_candle", tw.j, "", i>> : i \in {i \in 1..n : Shell(a[i]) # Shell(b[off + i])} }
+          \cup (IF Len(tw.names) = 0
+                THEN { <<cl \o "_ind", tw.j, "", i>> : i \in {i \in 1..n : ~KVSame(a[i].ind, b[off + i].ind)} }
+                     \cup { <<cl \o "_sub", tw.j, "", i>> : i \in {i \in 1..n : ~KVSame(a[i].sub, b[off + i].sub)} }
+                ELSE { <<cl \o "_ind", tw.j, tw.names[q], i>> :
+                          q \in 1..Len(tw.names),
+                          i \in {i \in 1..n : \E q2 \in 1..Len(tw.names) :
+                                    ~NameSame(a[i].ind, b[off + i].ind, tw.names[q2])} })
 
 StepFindings(T, e, post) ==
   UNION { LET mid == MidOf(T, e, j)
               sd  == IF mid.ok THEN FirstDiff(ShellSeq(mid.cs), ShellSeq(post[j])) ELSE -2
-          IN (IF e.exc # "" THEN {<<"exc", j, e.exc, 0>>} ELSE {})
-             \cup (IF ~mid.ok THEN {<<"stage_err", j, mid.err, 0>>}
-                   ELSE IF sd # 0 THEN {<<"stage", j, "", sd>>}
-                   ELSE (IF e.op \in {"append", "calculate"}
-                         THEN CalcFindings(T, e, j, mid.cs, post[j]) ELSE {})
-                        \cup StateFindings(T, j, post[j]))
-             \cup (IF Len(e.bt) >= j /\ e.bt[j].on = 1
-                   THEN TwinFindings(j, post[j], CJSeq(e.bt[j].cs), "batch") ELSE {})
+          IN IF e.exc # "" THEN {<<"exc", j, e.exc, 0>>}
+             ELSE IF ~mid.ok THEN {<<"stage_err", j, mid.err, 0>>}
+             ELSE IF sd # 0 THEN {<<"stage", j, "", sd>>}
+             ELSE (IF e.op \in {"append", "calculate"}
+                   THEN CalcFindings(T, e, j, mid.cs, post[j]) ELSE {})
+                  \cup StateFindings(T, j, post[j])
         : j \in 1..Len(T.mg) }
+  \cup UNION { TwinFindings(e.bt[q], post) : q \in 1..Len(e.bt) }
 
-\* --------------------------------------------------------------------------
 \* the trace behaviour
 \* --------------------------------------------------------------------------
 Init ==
@@ -141,6 +159,8 @@ Init ==
   /\ nchk = 0
 
 MaxFails == 6
+\* TRACE_DEBUG=1 lists unchecked comparisons among the failures (diagnosis only)
+DebugUnch == "TRACE_DEBUG" \in DOMAIN IOEnv
 RECURSIVE SetAsSeq(_)
 SetAsSeq(S) == IF S = {} THEN <<>> ELSE LET x == CHOOSE y \in S : TRUE IN <<x>> \o SetAsSeq(S \ {x})
 
@@ -150,7 +170,7 @@ Step ==
          e    == T.ev[l]
          post == [j \in 1..Len(T.mg) |-> ApplyDelta(st[j], e.m[j])]
          fs   == StepFindings(T, e, post)
-         bad  == {f \in fs : f[1] \notin {"ok", "unchecked"}}
+         bad  == {f \in fs : f[1] \notin (IF DebugUnch THEN {"ok"} ELSE {"ok", "unchecked"})}
          bseq == SetAsSeq(bad)
      IN /\ fails' = IF Len(fails) >= MaxFails THEN fails
                     ELSE fails \o [q \in 1..MinI(Len(bseq), MaxFails - Len(fails)) |-> <<l>> \o bseq[q]]
